@@ -47,10 +47,22 @@ class RowTr:
         self.env = dict(env or {})
         self.lets: List[Tuple[str, str]] = []
         self.fresh = 0
+        self.expanded: Dict[str, str] = {}  # let-bound name -> its definition with earlier names expanded
 
     def var(self) -> str:
         self.fresh += 1
         return f"x{self.fresh}"
+
+    def expand(self, text: str) -> str:
+        """`text` with let-bound names replaced by their definitions and bound-variable numbers dropped:
+        only used as a SORT KEY, so that naming an intermediate value does not change the operand order"""
+        import re as _re
+        for _ in range(6):
+            new = _re.sub(r"[A-Za-z_][A-Za-z_0-9]*", lambda m: self.expanded.get(m.group(0), m.group(0)), text)
+            if new == text:
+                break
+            text = new
+        return _re.sub(r"\bx\d+\b", "x", text)
 
     # ---- helpers ----------------------------------------------------------------------------
     def lift2(self, fn: Callable[[str, str], str], l: Tuple[str, Kind], r: Tuple[str, Kind]) -> Tuple[str, str]:
@@ -66,11 +78,10 @@ class RowTr:
             return f"(List.map (fun {x} => {fn(lt, x)}) {rt})", "V"
         return f"(List.zipWith (fun a b => {fn('a', 'b')}) {lt} {rt})", "V"
 
-    @staticmethod
-    def canon(l, r):
-        """canonical operand order for a commutative operator (vectors first, then by Lean text), so that a
-        commuted source expression regenerates the same term"""
-        key = lambda o: (0 if o[1][0] == "V" else 1, 1 if o[1][1] == "C" else 0, o[0])
+    def canon(self, l, r):
+        """canonical operand order for a commutative operator (vectors first, then by expanded Lean text), so
+        that a commuted source expression — or one whose operand was given a name — regenerates the same term"""
+        key = lambda o: (0 if o[1][0] == "V" else 1, 1 if o[1][1] == "C" else 0, self.expand(o[0]))
         return (l, r) if key(l) <= key(r) else (r, l)
 
     @staticmethod
@@ -214,6 +225,7 @@ class RowTr:
         if k[1] == "C":
             raise Untranslatable("bare literal")
         name = s.targets[0].id
+        self.expanded[name] = self.expand(t)
         self.lets.append((name, t))
         self.env[name] = (name, k)
 
